@@ -1984,6 +1984,30 @@ def run_c15(t):
 import pickle
 def gen_c19(rng, tier):
     """a history, a cut point, and what is done with the copy"""
+    z0 = rng.random()
+    if z0 < 0.05:
+        # many hyper-planes (hash codes beyond 2^53) and a copy restored in another interpreter (another hash seed)
+        base = gen.gen_ctx_case(rng, nps=["lsh"], max_ops=4, warm=False, lints_nbhd=False)
+        npol = list(base["np"]); npol[1] = rng.choice([54, 60, 64, 70]); base["np"] = tuple(npol)
+        if base["lp"][0] == "thompson" and base["lp"][1] is not None and base["lp"][1][0] == "thr":
+            base["lp"] = ("thompson", ("gt", 0.0))
+        base["ops"] = [o for o in base["ops"] if o[0] != "add" or o[2] is None]
+        return {"base": base, "pos": len(base["ops"]), "how": "fresh_interpreter", "seed2": rng.randint(0, 10**9)}
+    if z0 < 0.1:
+        # TreeBandit over Thompson sampling with a binarizer: queried, then an arm arrives WITH another binarizer, then the copy is
+        # taken: whatever a query may have cached per arm outside the instance dictionary is not in the copy
+        arms = [2, 4, 6]; d = 2; n = rng.randint(8, 14)
+        # (the first binarizer is absent or the identity on {0,1}, the second one is not: "flip")
+        first = rng.choice([None, ("gt", 0.5)])
+        cx = gen.gen_ctx(rng, n, d); ds = [arms[i % 3] for i in range(n)]; rs = [float(rng.randint(0, 1)) for _ in range(n)]
+        n2 = rng.randint(3, 6)
+        ops = [("fit", ds, rs, cx), ("pexp", gen.gen_ctx(rng, 2, d)), ("add", 9, ("flip",)),
+               ("pfit", [rng.choice(arms + [9]) for _ in range(n2)], [float(rng.randint(0, 1)) for _ in range(n2)], gen.gen_ctx(rng, n2, d)),
+               ("pexp", gen.gen_ctx(rng, 2, d))]
+        base = {"arms": arms, "lp": ("thompson", first), "np": ("tree", {}, (True, True)), "seed": rng.randint(0, 10**6), "ops": ops,
+                "label": "int", "mode": "exact", "reward_style": "smallint"}
+        pos = rng.choice([3, 4, 5])
+        return {"base": base, "pos": pos, "how": rng.choice(["deepcopy", "pickle4", "fresh_interpreter"]), "seed2": rng.randint(0, 10**9)}
     if rng.random() < 0.35:
         base = gen.gen_cf_case(rng, max_ops=7, warm=True)
     else:
